@@ -58,7 +58,7 @@ fn tightish(a: &PTok, b: &PTok) -> bool {
 }
 
 const INDENT_BLANKS: &[&str] = &["", " ", "  ", "    ", "\t", "\t\t", "   ", "        ", " \t", "      "];
-const MID_BLANKS: &[&str] = &[" ", "  ", "   ", "\t", " \t ", "     "];
+const MID_BLANKS: &[&str] = &[" ", "  ", "   ", "\t", " \t ", "     ", "\u{3000}", " \u{3000}", "\u{3000} "];
 
 /// Gaps for all tokens (gaps[i] is the gap before token i) plus one trailing gap.
 pub fn gen_layout(p: &Prog, t: &mut Tape, style: Style) -> Vec<Gap> {
@@ -322,6 +322,12 @@ pub fn insert_comments(p: &Prog, t: &mut Tape, policy: CommentPolicy, density: u
                         let c = t.pick_str(MULTI_COMMENTS);
                         out.toks.push(comment_tok(c, true, tok.depth, tok.in_anon));
                         out.tags.insert("comment:multi-line");
+                        if t.chance(1, 3) {
+                            // a comment on the line on which the multi-line comment ends
+                            let c = t.pick_str(&["// remark", "{ b }", "//x", "(* c *)"]);
+                            out.toks.push(comment_tok(c, false, tok.depth, tok.in_anon));
+                            out.tags.insert("comment:after-multi-line");
+                        }
                     }
                 }
             } else if policy == CommentPolicy::LineEdgesMid {
